@@ -66,6 +66,11 @@ CLAIMS["C17"] = dict(
   text="Decides on /repo's current tree the filter, base-case and dedup structure: the quantity-name shortcut is the same loop over registry.quantities in both commands and returns the dimensionality paired with exactly that name; `units for` considers every registered unit, lists one only behind `val.unit == unit.unit`, skips only pure aliases (units without a definition are kept), appends the base unit only for exponent one, sorts before grouping and flushes on category change and after the loop; factorize returns the empty product only for a dimensionless value, ties pushed name, divisor and recursive quotient to one (unit, name) pair, and dedup() runs over vectors sorted by a total order consistent with equality (Factors' PartialOrd is the derived/full order), so no duplicate survives. Soundness/completeness over the ~4000 database units is data and not claimed.",
   note="Trusted: the extractor's reading of today's loop shapes (an iterator-adaptor rewrite is reported as anchor-lost, not passed); BinaryHeap ordering through PartialOrd.",
   design_ref="DESIGN.md section 4, C17")
+CLAIMS["C16"] = dict(
+  technique="sibling cross-check of role-normalised arithmetic trees (def-use over MIR access paths), gate analysis of Substance::get, HIR arm tables of the formula parser and Expr::Of, who-may-write invariant of the symbol table",
+  text="Decides on /repo's current tree: the six near-copies of the property arithmetic in Substance::get, to_reply and get_in_unit compute exactly the reference operation trees over (amount, input, output) - output*amount/input for dimensionless amounts; input/amount, output/amount, output/(input/amount), input/(output/amount) otherwise - and pair them with output_name/input_name consistently; Substance::get returns a number for a dimensioned amount only behind dimless() of the corresponding ratio and otherwise Conformance(amount, the property's own side); Mul/Div by a number change only `amount`; Expr::Of maps both error kinds; substance_from_formula turns every token other than a known symbol (+count) into None, adds count x molar mass of the matched symbol for every occurrence (no keyed overwrite), and returns Some only behind a flag set in the symbol arm; substance_symbols only ever names an inserted substance. Linearity/inversion as numeric identities then follow from exact Number arithmetic (C01); that the database's ~200 substances carry the right numbers is data and not claimed.",
+  note="Trusted: the reference tree table in rules/c16.py (an algebraically equivalent rewrite of all copies needs a table update); driver; num-rational exactness.",
+  design_ref="DESIGN.md section 4, C16")
 NA = {
  "C05": "digit strings, recurring-block offsets and the 1-ulp truncation bound are number-theoretic facts about runtime values of p/q and the base; no structural clause is a genuine necessary condition (DESIGN.md section 4, C05)",
 }
